@@ -188,6 +188,8 @@ class Concrete:
                         vals.append(iv)
                         self.eqs.append(arr[k] == x)
                 ent["fields"][path] = (ft, vals)
+            elif ft.kind == "array" and ft.to.kind in ("int", "bool", "double"):
+                continue        # embedded scalar array: left zero-initialised in the harness
             elif ft.kind in ("array", "func"):
                 raise ReplayUnsupported("field %s of type %r" % (path, ft))
         self.order.append(r.rid)
